@@ -189,7 +189,7 @@ def run(ctx, replay):
     if quick:
         reps = reps[::3]
     sink = []
-    o5, o6 = _idxfam.run_driver(ctx, reps, tag="conc", race=True, extra=["-conc", "3"], stderr_sink=sink)
+    o5, o6 = _idxfam.run_driver(ctx, reps, tag="conc", race=True, extra=["-conc", "3"], stderr_sink=sink, shards=4)
     for se in sink:
         races(ctx, "index", se)
     r5 = ctx.tlc_trace("Trace_IndexOOO", "Trace_IndexOOO.cfg", o5, timeout=1800)
